@@ -8,6 +8,14 @@ inject cases: tested role (client / server) x kex (curve25519, nistp256, group14
     real Transports. Oracle when both KEXINITs on the wire carry the strict markers: the tested side
     ends with an error, never sets initial_kex_done. Nothing is asserted when strict mode was not
     agreed (outcome only counted).
+    Injected-type domain ("type:N"): EVERY message number 1..49 (transport layer generic 1..19 incl.
+    EXT_INFO 7, algorithm negotiation 20/21, kex method 30..49) and a sample of the numbers from 50
+    up (user auth, connection protocol, local extensions), each with a body that is WELL-FORMED for
+    that message (a malformed body would end the session in the message's parser and hide that the
+    message had been let through), at every position. The only injected message without obligation
+    is one of the very type the tested side is waiting for at that position (it IS "the next expected
+    key-exchange message"; outcome counted). Hypothesis additionally draws (type 0..255, body
+    well-formed / random bytes, position, role, kex).
 terrapin cases (client tested, both strict): IGNORE injected before the server's NEWKEYS and / or
     the server's first encrypted packet deleted. Oracle: inject -> handshake fails; delete only ->
     no authenticated session can be obtained afterwards (the shifted stream must not verify).
@@ -29,7 +37,11 @@ PROPERTY = "C09"
 LEVEL = "exploration"
 RULE = (
     "inject: role x kex(4) x strict_c x strict_s x position(0..3) x injected type(6), enumerated (quick: complete for "
-    "curve25519/nistp256 and for both-strict on group14/gex; thorough: complete product); terrapin: {inject+delete, delete} x "
+    "curve25519 and for both-strict on nistp256/group14/gex; thorough: complete product); injected-type domain under both-strict: "
+    "every message number 1..49 (incl. EXT_INFO 7, NEWKEYS 21, all kex-method numbers) plus 23 numbers >= 50, each with a body "
+    "well-formed for that message, x role x every position (quick: numbers < 50 complete for curve25519, otherwise one rotating "
+    "position/role per number and kex method; thorough: complete), plus hypothesis-drawn (type 0..255, well-formed or random body, position, role, "
+    "kex); an injected message of the type the receiver is waiting for carries no obligation; terrapin: {inject+delete, delete} x "
     "cipher/mac (4); honest: strict flags(4) x cipher/mac(5) x rekeys 0..2 with initiators drawn by hypothesis. non-trivial = "
     "injection at a position > 0, a deletion, or an honest session with >= 1 re-exchange; distinct by full case"
 )
@@ -46,7 +58,51 @@ SUITES = [
 ALLKEYS = ["ssh-ed25519", "ecdsa-sha2-nistp256", "ecdsa-sha2-nistp384", "ecdsa-sha2-nistp521", "rsa-sha2-512", "rsa-sha2-256", "ssh-rsa"]
 
 
-def _payload(name):
+TYPES_BELOW_50 = [t for t in range(1, 50) if t != 20]  # (a second KEXINIT is the "kexinit" kind)
+TYPES_ABOVE = [50, 51, 52, 53, 60, 61, 80, 81, 82, 90, 91, 92, 93, 94, 95, 96, 97, 98, 99, 100, 128, 191, 255]
+
+
+def wellformed(t):
+    """Payload (type byte first) of message number t with a body its parser accepts."""
+    table = {
+        1: lambda: peers.m_disconnect(11, b"verif"),
+        2: lambda: peers.m_ignore(b"verif"),
+        3: lambda: peers.m_unimplemented(0),
+        4: lambda: peers.m_debug(b"verif"),
+        5: lambda: peers.m_service_request(),
+        6: lambda: peers.m_service_accept(),
+        7: lambda: bytes([7]) + R.u32(1) + R.string(b"server-sig-algs") + R.string(b"ssh-ed25519,rsa-sha2-512,rsa-sha2-256"),
+        21: lambda: bytes([21]),
+        50: lambda: peers.m_userauth_request(b"u", b"ssh-connection", b"none"),
+        51: lambda: peers.m_userauth_failure(),
+        52: lambda: peers.m_userauth_success(),
+        53: lambda: bytes([53]) + R.string(b"verif banner") + R.string(b""),
+        60: lambda: bytes([60]) + R.string(b"ssh-ed25519") + R.string(b""),
+        61: lambda: bytes([61]) + R.u32(0),
+        80: lambda: peers.m_global_request(b"keepalive@verif", False),
+        81: lambda: peers.m_request_success(),
+        82: lambda: peers.m_request_failure(),
+        90: lambda: peers.m_channel_open(b"session", 0),
+        91: lambda: peers.m_channel_open_confirm(0, 0),
+        92: lambda: peers.m_channel_open_failure(0),
+        93: lambda: peers.m_window_adjust(0, 1024),
+        94: lambda: peers.m_channel_data(0, b"verif"),
+        95: lambda: peers.m_channel_ext_data(0, 1, b"verif"),
+        96: lambda: peers.m_channel_eof(0),
+        97: lambda: peers.m_channel_close(0),
+        98: lambda: peers.m_channel_request(0, b"shell", False),
+        99: lambda: peers.m_channel_success(0),
+        100: lambda: peers.m_channel_failure(0),
+    }
+    if t in table:
+        return table[t]()
+    return bytes([t]) + R.string(b"verif")  # unassigned / kex-method numbers: one string
+
+
+def _payload(name, body=None):
+    if name.startswith("type:"):
+        t = int(name[5:])
+        return wellformed(t) if body is None else bytes([t]) + bytes(body)
     return {
         "ignore": peers.m_ignore(b"verif"),
         "debug": peers.m_debug(b"verif"),
@@ -94,7 +150,7 @@ def run_inject(ctx, case):
         if what == "kexinit":
             first = m.seen[d][0]
             return [first, payload] if i > 0 else [payload, payload]
-        return [_payload(what), payload]
+        return [_payload(what, case.get("body")), payload]
 
     with _pack(kex):
         link, tc, ts = _pair(kex, case["strict_c"], case["strict_s"])
@@ -119,9 +175,22 @@ def run_inject(ctx, case):
         ctx.case(case, False, ["inject:not-applied"])
         return True
     cl = ["inject", "inject:" + what, "role:" + role, "kex:" + kex, "pos:%d(before type %d)" % (pos, applied[0]), "strict-agreed" if strict else "strict-not-agreed"]
+    awaited = False
+    if what.startswith("type:"):
+        t = int(what[5:])
+        cl.append("inject-type:" + ("1-19" if t < 20 else "20-29" if t < 30 else "30-49" if t < 50 else "50-79" if t < 80 else "80-127" if t < 128 else "128-255"))
+        cl.append("inject-body:" + ("wellformed" if case.get("body") is None else "random"))
+        if pos == len(m.seen[target]) - 1 and applied[0] == 21:
+            cl.append("inject-window:after-own-newkeys-before-peer-newkeys")
+        # the message the receiver is waiting for at this point is not an *unexpected* message
+        # (gex servers wait for GEX_REQUEST 34 or the old-style request 30)
+        awaited = t == applied[0] or (t == 30 and applied[0] == 34)
     ctx.case(case, pos > 0, cl)
     if not strict:
         ctx.count("nonstrict:" + ("session-established" if done else "session-failed"))
+        return True
+    if awaited:
+        ctx.count("injected-type-is-the-awaited-one:" + ("session-established" if done else "session-failed"))
         return True
     if err is None and not done:
         ctx.inconc("inject:tested-side-neither-failed-nor-established-in-time")
@@ -295,11 +364,23 @@ def inject_domain(quick):
             cheap = kex in KEXES[:2]
             for sc in (True, False):
                 for ss in (True, False):
-                    if quick and not cheap and not (sc and ss):
+                    if quick and not (sc and ss) and kex != KEXES[0]:
                         continue
                     for pos in range(npk):
                         for what in INJECT:
                             out.append({"kind": "inject", "role": role, "kex": kex, "strict_c": sc, "strict_s": ss, "pos": pos, "inject": what})
+    # injected-type domain (strict mode agreed): every number below 50 and a sample above, at every position
+    for ki, kex in enumerate(KEXES):
+        npk = 4 if mitm.kex_family(kex) == "gex" else 3
+        for j, t in enumerate(TYPES_BELOW_50 + TYPES_ABOVE):
+            for ri, role in enumerate(("client", "server")):
+                for pos in range(npk):
+                    rotating = pos == (j + ki) % npk and ri == (j // npk + ki) % 2
+                    if quick and not rotating and (ki > 0 or t >= 50):
+                        continue
+                    if quick and t >= 50 and ki in (1, 2):
+                        continue
+                    out.append({"kind": "inject", "role": role, "kex": kex, "strict_c": True, "strict_s": True, "pos": pos, "inject": "type:%d" % t})
     return out
 
 
@@ -332,7 +413,7 @@ def run(ctx):
         _dispatch(ctx, c)
     if complete:
         ctx.exhaustive = True
-        ctx.note("exhaustive_over", "injection product (%s) + terrapin shapes: %d cases; honest sessions are sampled" % ("quick subset: non-strict combinations only for curve25519/nistp256" if ctx.quick else "complete", len(dom)))
+        ctx.note("exhaustive_over", "injection product (%s) + terrapin shapes: %d cases; honest sessions are sampled" % ("quick subset: non-strict combinations only for curve25519; injected-type domain complete for curve25519 and numbers < 50, rotating otherwise" if ctx.quick else "complete", len(dom)))
     honest = st.fixed_dictionaries(
         {
             "kind": st.just("honest"),
@@ -344,6 +425,19 @@ def run(ctx):
         }
     )
     ctx.explore(honest, lambda c: _dispatch(ctx, c), ctx.scale(30, 800), shrink=False)
+    drawn = st.fixed_dictionaries(
+        {
+            "kind": st.just("inject"),
+            "role": st.sampled_from(["client", "server"]),
+            "kex": st.sampled_from(KEXES[:2] + KEXES[3:] if ctx.quick else KEXES),
+            "strict_c": st.just(True),
+            "strict_s": st.just(True),
+            "pos": st.integers(0, 3),
+            "inject": st.one_of(st.integers(0, 49), st.integers(0, 255)).filter(lambda t: t != 20).map(lambda t: "type:%d" % t),
+        },
+        optional={"body": st.binary(max_size=40)},
+    )
+    ctx.explore(drawn, lambda c: _dispatch(ctx, c), ctx.scale(40, 1500), shrink=False, seed_offset=1)
 
 
 def replay(ctx, case):
